@@ -87,9 +87,16 @@ def main():
             name = os.path.relpath(patch, V)
             if isinstance(tmsg, str) and tmsg.startswith('PATCH-FAILED'):
                 print('%-55s %s' % (name, tmsg)); missed += 1; continue
+            meta = {}
+            mp = os.path.join(os.path.dirname(patch), 'meta.json')
+            if os.path.exists(mp):
+                meta = json.load(open(mp))
             for pid, rc, t, clauses, err in res:
                 verdict = {1: 'CAUGHT', 0: 'MISSED', 2: 'HARNESS-ERROR'}.get(rc, 'rc=%s' % rc)
-                if rc != 1: missed += 1
+                if rc == 0 and meta.get('not_detected'):
+                    # recorded in DESIGN.md as outside what the checks decide
+                    verdict = 'NOT-DETECTED(recorded)'
+                elif rc != 1: missed += 1
                 print('%-55s %s %-8s %5.1fs %s %s %s' % (name, pid, verdict, t, ','.join(clauses), tmsg, err))
             sys.stdout.flush()
     sys.exit(1 if missed else 0)
